@@ -83,6 +83,15 @@ class SymEnv(Env):
         self.hole_terms[name] = v.e
         return v
 
+    def hole_bytes(self, name, n):
+        """n symbolic bytes (python list of SymInt, each 0..255)"""
+        out = []
+        for k in range(n):
+            v = sym.sym_int("h_%s_%d" % (name, k), 0, 255)
+            out.append(v)
+        self.hole_terms[name] = ("bytes", [v.e for v in out])
+        return out
+
     def hole_seq(self, name, maxlen=None):
         """a byte sequence of symbolic length (z3 Seq); elements constrained to 0..255 by quantifier-free
         facts added where elements are read (see SeqList.byte_facts)"""
@@ -124,6 +133,9 @@ class SymEnv(Env):
     def _model_holes(self, model):
         out = {}
         for k, t in self.hole_terms.items():
+            if isinstance(t, tuple) and t[0] == "bytes":
+                out[k] = [model.eval(x, model_completion=True).as_long() for x in t[1]]
+                continue
             if z3.is_seq(t):
                 n = model.eval(z3.Length(t), model_completion=True).as_long()
                 out[k] = [model.eval(t[i], model_completion=True).as_long() for i in range(min(n, 100000))]
@@ -228,6 +240,10 @@ class NativeEnv(Env):
 
     def hole_seq(self, name, maxlen=None):
         return list(self.holes[name])
+
+    def hole_bytes(self, name, n):
+        v = list(self.holes.get(name, []))
+        return (v + [0] * n)[:n]
 
     def assume(self, cond):
         if not cond:
